@@ -19,10 +19,12 @@ let run () =
   let sp = ref sinit in
   let dump = ref true in
   let dead = ref false in
+  let counted = ref true in
   iter_lines (fun line ->
     let ws = words line in
     match ws with
     | ["cmp"; c] ->
+        counted := (c <> "default");      (* "default": the caller installs no comparator, so it cannot count the calls *)
         (cmp := match c with
           | "rev" -> (fun a b -> byte_cmp b a)
           | "len" -> (fun a b -> let la = List.length a and lb = List.length b in if la < lb then Lt else if la > lb then Gt else byte_cmp a b)
@@ -84,7 +86,7 @@ let run () =
         (match step !cmp !st o with
          | Ok (s', ob) ->
            let extra = match o with
-             | Get k -> (match k with [] -> "" | _ -> " cmps=" ^ string_of_int (int_of_nat (find_cost (ncmp !cmp) !st.root (probe k))))
+             | Get k -> (match k with [] -> "" | _ when not !counted -> "" | _ -> " cmps=" ^ string_of_int (int_of_nat (find_cost (ncmp !cmp) !st.root (probe k))))
              | _ -> "" in
            st := s';
            let obs = match ob with
